@@ -27,6 +27,7 @@ const (
 	PEmptyPayload
 	PKeepAlive
 	PHeaderPause
+	PReservedFlags
 )
 
 var ProbeNames = map[int]string{
@@ -40,6 +41,7 @@ var ProbeNames = map[int]string{
 	PEmptyPayload:           "empty_payload",
 	PKeepAlive:              "keep_alive_packets_in_the_stream",
 	PHeaderPause:            "peer_paused_6s_or_40s_inside_a_frame_header",
+	PReservedFlags:          "peer_sets_reserved_flag_bits",
 }
 
 const maxLen = 0x1FFFF
@@ -86,18 +88,20 @@ var cutNames = [...]string{"none", "FIN", "RST", "local-close"}
 var wireNames = [...]string{"pair", "sut-sends", "sut-receives", "duplex", "multi-sender"}
 
 type plan struct {
-	v6      bool // the peer / crossover address is an IPv6 address
-	wiring  int
-	lens    []int
-	lens2   []int // duplex: frames of the reverse direction; two sessions: frames of the second session
-	keepAt  []int // sut-receives: RFC 1002 session keep-alive packets (85 00 00 00) inserted before these frame indexes
-	twoSess bool  // sut-receives: the transport is closed after recv1 frames and connected again (second session)
-	recv1   int
-	cutKind int
-	cutAt   int // byte offset in the wire stream
-	segMode int // -1 from the choice stream, 0 whole, 1 byte by byte
-	window  int
-	quiet   bool
+	v6       bool // the peer / crossover address is an IPv6 address
+	wiring   int
+	lens     []int
+	lens2    []int // duplex: frames of the reverse direction; two sessions: frames of the second session
+	keepAt   []int // sut-receives: RFC 1002 session keep-alive packets (85 00 00 00) inserted before these frame indexes
+	resvMask byte  // sut-receives: reserved bits (0x02..0x80) the peer sets in the flags byte of frame resvAt (0 = none)
+	resvAt   int
+	twoSess  bool // sut-receives: the transport is closed after recv1 frames and connected again (second session)
+	recv1    int
+	cutKind  int
+	cutAt    int // byte offset in the wire stream
+	segMode  int // -1 from the choice stream, 0 whole, 1 byte by byte
+	window   int
+	quiet    bool
 }
 
 type recvRes struct {
@@ -250,6 +254,24 @@ func genPlan(o hx.Opts) *plan {
 		if k2%2 == 0 {
 			p.keepAt = append(p.keepAt, k2%(len(p.lens)+1))
 		}
+	} else if p.wiring == WireSUTRecv && !p.twoSess && ka == 1 {
+		// RFC 1002 4.3.1: the flags byte has one defined bit (the length extension); a peer that sets others is
+		// out of spec. The receiver may ignore them (the pinned tree does) or report an error, but it must not
+		// take them for length bits or anything else that turns the stream into other messages.
+		p.cutKind = cutFIN
+		p.resvMask = byte(2) << uint(k1%7)
+		if k2%3 == 0 {
+			p.resvMask |= byte(2) << uint(k2%7)
+		}
+		p.resvAt = k2 % len(p.lens)
+		if k1%2 == 0 {
+			// the lowest reserved bit, in the first frame, with enough stream behind it for a receiver that takes
+			// the bit for a length bit (+128 KiB) to be able to complete its read
+			p.resvMask, p.resvAt = 0x02, 0
+			if len(p.lens) <= 4 {
+				p.lens = append(p.lens, 70000+k2, 70000-k2)
+			}
+		}
 	}
 	return p
 }
@@ -313,6 +335,15 @@ func enumPlan(index int64) *plan {
 	return nil
 }
 
+// LenEnumSize: every payload length the 17-bit field can express, and the first few it cannot.
+func LenEnumSize() int64 { return maxLen + 1 + 16 }
+
+// lenPlan: one frame of exactly index bytes through a pair of real transports (Send on one, Receive on the other);
+// the segmentation of the stream comes from the run's choice stream. Lengths above 0x1FFFF must be refused by Send.
+func lenPlan(index int64) *plan {
+	return &plan{lens: []int{int(index)}, wiring: WirePair, segMode: -1, window: 1 << 20, v6: index%7 == 3}
+}
+
 // Run executes one simulated run.
 func Run(seed uint64, index int64, o hx.Opts) *hx.Result {
 	res := &hx.Result{Property: "C11", Index: index, Seed: seed, Extra: map[string]int64{}}
@@ -335,7 +366,10 @@ func Run(seed uint64, index int64, o hx.Opts) *hx.Result {
 	var bad *hx.Violation
 
 	v := w.Run(func() {
-		if o.Scenario == "cutenum" {
+		if o.Scenario == "lenenum" {
+			pl = lenPlan(index)
+			res.Scenario = "lenenum"
+		} else if o.Scenario == "cutenum" {
 			pl = enumPlan(index)
 			if pl == nil {
 				return
@@ -390,6 +424,21 @@ func Run(seed uint64, index int64, o hx.Opts) *hx.Result {
 			stream = ws
 			pl.cutAt = len(stream)
 			rt.Probe(PKeepAlive)
+		}
+		if pl.resvMask != 0 {
+			pos, fi := 0, 0
+			for _, p := range frames {
+				if len(p) > maxLen {
+					continue
+				}
+				if fi == pl.resvAt%max(len(legal), 1) {
+					stream[pos+1] |= pl.resvMask
+				}
+				pos += 4 + len(p)
+				fi++
+			}
+			pl.cutAt = len(stream)
+			rt.Probe(PReservedFlags)
 		}
 		if pl.cutKind != cutNone {
 			off, pos := pl.cutAt, 0
@@ -500,7 +549,7 @@ func Run(seed uint64, index int64, o hx.Opts) *hx.Result {
 				// sometimes the peer stops in the middle of a frame header for longer than any idle timer a
 				// receiver might run (6 s or 40 s), then carries on
 				pauseAt, pause := -1, int64(0)
-				if pl.segMode < 0 && len(pl.keepAt) == 0 {
+				if pl.segMode < 0 && len(pl.keepAt) == 0 && pl.resvMask == 0 {
 					if pz := hx.F(6); pz <= 1 && len(data) > 4 {
 						off, pos := 0, hx.F(len(legal)+1)
 						for i, p := range legal {
@@ -585,7 +634,7 @@ func Run(seed uint64, index int64, o hx.Opts) *hx.Result {
 					return
 				}
 				connected.Set()
-				if len(pl.keepAt) > 0 {
+				if len(pl.keepAt) > 0 || pl.resvMask != 0 {
 					recvs = receiveLenient(tr, len(legal)+len(pl.keepAt)+4)
 				} else {
 					recvs = receiveAll(tr, len(legal), pl.cutKind != cutNone)
@@ -788,6 +837,9 @@ func Run(seed uint64, index int64, o hx.Opts) *hx.Result {
 	if len(pl.keepAt) > 0 {
 		desc += fmt.Sprintf(" keep-alive packets before frame(s) %v", pl.keepAt)
 	}
+	if pl.resvMask != 0 {
+		desc += fmt.Sprintf(" reserved flag bits %#02x set by the peer in frame %d", pl.resvMask, pl.resvAt)
+	}
 	if pl.twoSess {
 		desc += fmt.Sprintf(" two-sessions: close after %d receives, reconnect, second-session-frames=%v", pl.recv1, pl.lens2)
 	}
@@ -799,6 +851,12 @@ func Run(seed uint64, index int64, o hx.Opts) *hx.Result {
 	if v == nil && bad == nil {
 		if pl.wiring == WireMulti {
 			bad = oracleMulti(frames, frames2, recvs)
+		} else if pl.resvMask != 0 {
+			bad = oracleKeepAlive(frames, recvs)
+			if bad != nil {
+				bad.Key = "reserved-flags/" + bad.Key
+				bad.Msg = fmt.Sprintf("the peer set reserved flag bits %#02x in the header of frame %d: ", pl.resvMask, pl.resvAt) + bad.Msg
+			}
 		} else if len(pl.keepAt) > 0 {
 			bad = oracleKeepAlive(frames, recvs)
 		} else if pl.twoSess {
